@@ -96,9 +96,6 @@ func SNPValidateFunc(opts *Options) func(*spb.Attestation, []byte) error {
 // SNPFamilyValidateFunc returns a validation function that can be used with go-sev-guest on an
 // SEV-SNP attestation report given an expected familyID.
 func SNPFamilyValidateFunc(familyID string, opts *Options) func(*spb.Attestation, []byte) error {
-	if opts.SNP == nil {
-		opts.SNP = &SNPOptions{}
-	}
 	return func(attestation *spb.Attestation, serializedEndorsement []byte) error {
 		if attestation == nil {
 			return fmt.Errorf("attestation is nil")
@@ -118,12 +115,20 @@ func SNPFamilyValidateFunc(familyID string, opts *Options) func(*spb.Attestation
 			serializedEndorsement = blob
 
 		}
-		opts.SNP.Measurement = measurement
+		// The validation function may be called repeatedly or concurrently, so the report's
+		// measurement goes in a per-call copy of the options, never in the caller's.
+		callOpts := *opts
+		snpOpts := SNPOptions{}
+		if opts.SNP != nil {
+			snpOpts = *opts.SNP
+		}
+		snpOpts.Measurement = measurement
+		callOpts.SNP = &snpOpts
 		// Prefer the endorsement provided by the caller.
 		if opts.Endorsement != nil {
-			return EndorsementProto(opts.Endorsement, opts)
+			return EndorsementProto(opts.Endorsement, &callOpts)
 		}
-		return Endorsement(serializedEndorsement, opts)
+		return Endorsement(serializedEndorsement, &callOpts)
 	}
 }
 
